@@ -115,8 +115,11 @@ func (f *fetcher) handleUpstream416(req *http.Request, resp *http.Response, key 
 	// Close the previous response body to avoid resource leaks
 	resp.Body.Close()
 
+	// The Range header goes from the client's request for good, not just from the retry: whatever
+	// is fetched for this exchange from here on (e.g. the direct fetch when the cache cannot take the
+	// retried answer) must not fall back to the request the origin has just refused.
+	clientHd.Range.SyncRemove(req.Header)
 	retryReq := req.Clone(req.Context())
-	clientHd.Range.SyncRemove(retryReq.Header)
 
 	retryResp, _, err := f.sendRequestToUpstream(retryReq)
 	if err != nil {
